@@ -22,6 +22,30 @@ type c01mut struct {
 	wantFail bool
 }
 
+// c01corpus: hand-written signable steps (matrix shapes that the random generator produces rarely)
+var c01corpus = []func() *dv{
+	// a matrix without setup, with adjustments
+	func() *dv {
+		return dMap(dkv{"command", dStr("make")}, dkv{"matrix", dMap(dkv{"adjustments", dList(
+			dMap(dkv{"with", dMap(dkv{"os", dStr("linux")})}, dkv{"skip", dBool(true)}),
+			dMap(dkv{"with", dMap(dkv{"os", dStr("mac")})}, dkv{"soft_fail", dBool(true)}))})})
+	},
+	// the anonymous dimension next to a named one; adjustments whose `with` has one named key, one anonymous key, both
+	func() *dv {
+		return dMap(dkv{"command", dStr("make")}, dkv{"env", dMap(dkv{"DEPLOY", dStr("step")})}, dkv{"matrix", dMap(
+			dkv{"setup", dMap(dkv{"", dList(dStr("a"), dStr("b"))}, dkv{"os", dList(dStr("linux"))})},
+			dkv{"adjustments", dList(
+				dMap(dkv{"with", dMap(dkv{"os", dStr("plan9")})}),
+				dMap(dkv{"with", dMap(dkv{"", dStr("c")})}, dkv{"skip", dStr("")}),
+				dMap(dkv{"with", dMap(dkv{"", dStr("a")}, dkv{"os", dStr("mac")})}, dkv{"soft_fail", dMap(dkv{"exit_status", dInt(1)})}))})})
+	},
+	// plugins in every spelling, a list matrix
+	func() *dv {
+		return dMap(dkv{"commands", dList(dStr("a"), dStr("b"))}, dkv{"plugins", dList(dStr("docker#v1"), dMap(dkv{"org/tool#v2", dMap()}), dMap(dkv{"./local", dNull()}),
+			dMap(dkv{"cfg#v3", dMap(dkv{"k", dList(dInt(1), dStr("x"))})}))}, dkv{"matrix", dList(dStr("x"), dInt(2), dBool(true))})
+	},
+}
+
 func init() {
 	props["C01"] = func(rng *sx.Rng, thorough bool) {
 		keys := signKeyPool(thorough)
@@ -34,6 +58,12 @@ func init() {
 			penv0 := g.pipelineEnv()
 			g.penvNames = sortedKeys(penv0)
 			base := c14case{doc: g.signableStep(), penv: penv0, repo: sx.Pick(rng, []string{"git@github.com:o/r.git", "https://example.org/r", "repo"})}
+			// a small corpus of shapes that random generation reaches too rarely runs first (one entry per key kind)
+			if ci := i / len(keys); i < len(keys)*len(c01corpus) {
+				base.doc = c01corpus[ci]()
+				base.penv = map[string]string{"EMPTY_VALUE": "", "DEPLOY": "yes", "version": "1"}
+				g.penvNames = sortedKeys(base.penv)
+			}
 			ki := i % len(keys)
 			key := keys[ki]
 			cs, text, err := stepFromDoc(base.doc)
@@ -92,8 +122,11 @@ func init() {
 				}
 			}
 			if len(signedEnv) > 0 {
-				add("signed-env-var-removed", true, func(m *c01mut) bool { delete(m.c.penv, signedEnv[0]); return true })
-				add("signed-env-var-changed", true, func(m *c01mut) bool { m.c.penv[signedEnv[0]] += "x"; return true })
+				for _, sv := range signedEnv {
+					sv := sv
+					add("signed-env-var-removed", true, func(m *c01mut) bool { delete(m.c.penv, sv); return true })
+					add("signed-env-var-changed", true, func(m *c01mut) bool { m.c.penv[sv] += "x"; return true })
+				}
 				add("field-list-drops-env", true, func(m *c01mut) bool {
 					for _, f := range sg.SignedFields {
 						if f != "env::"+signedEnv[0] {
